@@ -3,7 +3,7 @@
    executable model of Model.v (instantiated on an arbitrary real closed field F: exact arithmetic).
    All statements quantify over ALL sampler expressions (any nesting), batch shapes, sizes and sample counts. *)
 From mathcomp Require Import all_ssreflect all_algebra.
-Require Import C18.Model C18.ProofsIdx C18.ProofsLinear C18.ProofsGram C18.ProofsMx C18.ProofsCoord.
+Require Import C18.Model C18.ProofsIdx C18.ProofsLinear C18.ProofsGram C18.ProofsMx C18.ProofsCoord C18.ProofsChol.
 Set Implicit Arguments.
 Unset Strict Implicit.
 Import GRing.Theory Num.Theory.
@@ -93,6 +93,21 @@ Theorem C18_leaf_sqrt_valid : forall (F : rcfType) (st : sett) bs (A : seq F) rk
   (forall b, (b < prodn bs)%N -> 0 <= rd (RA F) A b) -> leaves_ok st (SGen bs 1 A rk).
 Proof. move=> F st bs A rk; exact: leaf_sqrt_ok. Qed.
 
+(* The Cholesky transcription used by the model on the `cholesky` path really factorises: for a symmetric matrix
+   whose factorisation meets no non-positive pivot (torch.linalg.cholesky_ex: info = 0), L L^T = A, L lower
+   triangular — for every size n (induction over the row-by-row recurrence). *)
+Theorem C18_chol_factorizes : forall (F : rcfType) n (A : nat -> nat -> F),
+  (forall i j, (i < n)%N -> (j < n)%N -> A i j = A j i) -> pivots_pos n A ->
+  (forall i j, (i < n)%N -> (j < n)%N -> \sum_(l < n) Lent n A i l * Lent n A j l = A i j) /\
+  (forall i j, (i < n)%N -> (i < j)%N -> Lent n A i j = 0).
+Proof. move=> F n A hs hp; split; [exact: chol_gram | by move=> i j; exact: Lent_upper]. Qed.
+
+(* ... hence the generic leaf on the Cholesky path (size <= max_cholesky_size, or fast root decomposition off; not 1x1,
+   not CIQ) is a valid leaf for C18_sample_root whenever every batch member is symmetric with positive pivots. *)
+Theorem C18_leaf_chol_valid : forall (F : rcfType) (st : sett) bs n (A : seq F) lz,
+  gen_method st n (RAuto lz) = MChol -> chol_ok (prodn bs) n A -> leaves_ok st (SGen bs n A (RAuto lz)).
+Proof. move=> F st bs n A lz; exact: leaf_chol_ok. Qed.
+
 (* Covariance of a linear image of white noise, expectation-free (E[z z^T] = I  =>  E[(Rz)(Rz)^T] = R R^T):
    the outer products of the images of the basis vectors sum to R R^T; with a general second moment M of
    the noise the draws have second moment R M R^T. *)
@@ -141,5 +156,23 @@ split; first by [].
 split; first by [].
 split; first by [].
 by eexists; rewrite /=; reflexivity.
+Qed.
+
+(* non-vacuity of chol_ok: A = [[1,1],[1,2]] (one batch member) is symmetric with pivots 1 and 1 *)
+Definition nv_A2 : seq F := [:: 1; 1; 1; 2%:R].
+Lemma nv_L00 : Lent 2 (Ab 2 nv_A2 0) 0 0 = 1.
+Proof. by rewrite Lent_diag // big_ord0 subr0 /Ab /= /Model.rd /= sqrtr1. Qed.
+Lemma nv_L10 : Lent 2 (Ab 2 nv_A2 0) 1 0 = 1.
+Proof. by rewrite Lent_lower // big_ord0 subr0 nv_L00 divr1. Qed.
+Example C18_chol_nonvacuous : chol_ok 1 2 nv_A2 /\ gen_method st0 2 (@RAuto F None) = MChol.
+Proof.
+split; last by [].
+move=> b; rewrite ltnS leqn0 => /eqP ->; split.
+  by move=> i j; case: i => [|[|//]] _; case: j => [|[|//]] _.
+move=> i; case: i => [|[|//]] _.
+  by rewrite big_ord0 subr0 /Ab /= /Model.rd /= ltr01.
+rewrite big_ord_recl big_ord0 addr0 nv_L10 mulr1 /Ab /= /Model.rd /=.
+have -> : (2%:R - 1 : F) = 1 by rewrite -[X in _ - X]/(1%:R) -natrB.
+exact: ltr01.
 Qed.
 End NonVacuous.
